@@ -880,7 +880,11 @@ def _x1b(ctx) -> None:
 def run(ctx) -> None:
     for name, fn in (("X3", _x3), ("X10", _x10), ("X1", _x1b), ("P14", rule_P14), ("P1", template.rule_P1), ("P2", rule_P2), ("P3", rule_P3), ("P4", rule_P4), ("P5", rule_P5), ("P6", rule_P6), ("P7", rule_P7), ("P8", rule_P8), ("Y2iii", template.rule_Y2iii), ("P9", rule_P9), ("P10", rule_P10), ("P11", rule_P11), ("P12", rule_P12), ("P13", rule_P13)):
         ctx.rules_run.append(name)
-        fn(ctx)
+        try:
+            fn(ctx)
+        except AnalysisError as e:
+            # one rule that cannot analyse the tree (exit 2 at the end) does not hide what the other rules find
+            ctx.deferred_errors.append(f"{name}: {e}")
     from . import phases
     ctx.rules_run.append("Y7")
     phases.rule_Y7(ctx)
